@@ -1,0 +1,40 @@
+//go:build verif
+
+package state
+
+// Add-only inspection hooks for the /verif harness (property C09).
+
+// VerifC09Lock is one entry of worldVirtualState.accountStates.
+type VerifC09Lock struct {
+	ID     string
+	Lock   int
+	Depend WorldVirtualState // nil if the entry has no predecessor to wait for
+}
+
+// VerifC09Inspect returns the lock bookkeeping that applyLockRequests
+// computed for w: its world lock, its per-account entries (unordered) and its
+// parent. To be called right after NewWorldVirtualState / GetFuture.
+func VerifC09Inspect(w WorldVirtualState) (worldLock int, locks []VerifC09Lock, parent WorldVirtualState) {
+	wvs := w.(*worldVirtualState)
+	wvs.mutex.Lock()
+	defer wvs.mutex.Unlock()
+	for id, las := range wvs.accountStates {
+		l := VerifC09Lock{ID: id, Lock: las.lock}
+		if las.depend != nil {
+			l.Depend = las.depend
+		}
+		locks = append(locks, l)
+	}
+	if wvs.parent != nil {
+		parent = wvs.parent
+	}
+	return wvs.worldLock, locks, parent
+}
+
+// VerifC09Committed tells whether Commit was called on w (or it was created committed).
+func VerifC09Committed(w WorldVirtualState) bool {
+	wvs := w.(*worldVirtualState)
+	wvs.mutex.Lock()
+	defer wvs.mutex.Unlock()
+	return wvs.waiter == nil
+}
